@@ -52,7 +52,7 @@ pub const NT: usize = 4; // caller threads
 pub const BORROW_BASE: i64 = 1000;
 /// parser steps allowed to one call on top of 256 per byte of its text arguments (encoders of big
 /// handles do not tick; decoders tick a few times per byte)
-pub const CALL_FUEL_BASE: u64 = 200_000;
+pub const CALL_FUEL_BASE: u64 = 2_000_000;
 
 /// One call of the history. `h`: handle/slot arguments in the order of the C signature
 /// (-1 = null pointer); `n`: numeric arguments (f64 as bits); `s`: C string arguments as hex of
@@ -1744,6 +1744,8 @@ fn spawn_caller(sim: Arc<Mutex<Sim>>, ops: Arc<Vec<Op>>, ack: Sender<()>, announ
 pub struct HistoryResult {
     /// heap blocks still live after the history that were not live before it (ASan build only)
     pub net_blocks: Option<i64>,
+    /// allocation sizes minus deallocation sizes over the history (ASan build only)
+    pub net_bytes: Option<i64>,
     pub sim_fp: u64,
     pub violation: Option<(String, String)>,
     pub calls: u64,
@@ -1755,11 +1757,17 @@ pub struct HistoryResult {
 /// it (used in isolated child processes so that an abort is attributed to the call).
 pub fn run_history(ops: &[Op], mode: Mode, announce: bool) -> HistoryResult {
     let entry = crate::alloc_count::live_blocks();
+    let entry_bytes = crate::alloc_count::live_bytes();
     let mut r = run_history_inner(ops, mode, announce);
     // everything the simulator allocated is dropped by now except what the result itself holds
     let held = r.violation.as_ref().map_or(0, |(a, b)| (a.capacity() > 0) as i64 + (b.capacity() > 0) as i64) + (r.probes.capacity() > 0) as i64;
+    let held_bytes = r.violation.as_ref().map_or(0, |(a, b)| a.capacity() + b.capacity()) + r.probes.capacity() * std::mem::size_of::<(&'static str, u64)>();
     r.net_blocks = match (entry, crate::alloc_count::live_blocks()) {
         (Some(a), Some(b)) => Some(b - a - held),
+        _ => None,
+    };
+    r.net_bytes = match (entry_bytes, crate::alloc_count::live_bytes()) {
+        (Some(a), Some(b)) => Some(b - a - held_bytes as i64),
         _ => None,
     };
     r
@@ -1831,6 +1839,7 @@ fn run_history_inner(ops: &[Op], mode: Mode, announce: bool) -> HistoryResult {
     let s = sim.lock().unwrap();
     HistoryResult {
         net_blocks: None,
+        net_bytes: None,
         sim_fp: s.fp,
         violation: s.violation.clone(),
         calls: s.calls,
